@@ -399,7 +399,12 @@ pub fn write_plan(env: &RealEnv, w: &World, inv: &RInv, rng: &mut Rng) {
         if s.discovers {
             if let Some(d) = &s.depfile {
                 if !inv.faults.contains_key(&s.id) {
-                    o.set("depfile", J::strs([d.clone(), depfile_text(s, rng)]));
+                    if s.extra_reads.is_empty() && rng.chance(1, 2) {
+                        // a compiler that has nothing to report may write no depfile at all
+                        o.set("depfile_remove", J::s(d));
+                    } else {
+                        o.set("depfile", J::strs([d.clone(), depfile_text(s, rng)]));
+                    }
                 }
             } else if s.msvc {
                 // a failing compiler prints its include notes too
